@@ -7,6 +7,7 @@ package upload
 import (
 	"context"
 	"encoding/xml"
+	"errors"
 	"io"
 	"net/http"
 	"net/url"
@@ -232,9 +233,14 @@ func GetSlot(ctx context.Context, f File, to jid.JID, s *xmpp.Session) (Slot, er
 
 // GetSlotIQ is like GetSlot except that it lets you customize the IQ.
 // Changing the type of the IQ has no effect.
+// If the response does not contain a slot with both a put and a get URL an
+// error is returned.
 func GetSlotIQ(ctx context.Context, f File, iq stanza.IQ, s *xmpp.Session) (Slot, error) {
 	iq.Type = stanza.GetIQ
 	var slot Slot
 	err := s.UnmarshalIQElement(ctx, f.TokenReader(), iq, &slot)
+	if err == nil && (slot.PutURL == nil || slot.GetURL == nil) {
+		return slot, errors.New("upload: the response does not contain a slot with a put and a get URL")
+	}
 	return slot, err
 }
